@@ -378,6 +378,32 @@ class Exec:
     # ---- calls ----------------------------------------------------------------------------------
     def call(self, callee, args, mem, path, depth):
         c = re.sub(r"\s+", " ", callee.strip())
+        m = re.fullmatch(r"Atomic::<bool>::(\w+)", c)
+        if m:
+            # a flag: the cell holds 0 / 1; operands and results are converted at the boundary
+            op = m.group(1)
+            cell = self.load(args[0], mem) if isinstance(args[0], Ref) else None
+            if not isinstance(cell, AtomicCell):
+                raise Unsupported("atomic op on a non-shared flag")
+            ordering = args[-1].k if isinstance(args[-1], Konst) else "?"
+            def tobv(x):
+                if not isinstance(x, BoolV):
+                    raise Unsupported("non-boolean operand of a flag operation")
+                return "(_ bv1 64)" if x.t == "true" else ("(_ bv0 64)" if x.t == "false" else f"(ite {x.t} (_ bv1 64) (_ bv0 64))")
+            if op == "load":
+                res = self.fresh("r")
+                path.events.append(Event("atomic", cell.name, "load", None, res, ordering))
+                yield mem, path, BoolV(f"(= {res} (_ bv1 64))")
+            elif op == "store":
+                path.events.append(Event("atomic", cell.name, "store", tobv(args[1]), None, ordering))
+                yield mem, path, Konst("unit")
+            elif op == "swap":
+                res = self.fresh("r")
+                path.events.append(Event("atomic", cell.name, "swap", tobv(args[1]), res, ordering))
+                yield mem, path, BoolV(f"(= {res} (_ bv1 64))")
+            else:
+                raise Unsupported("flag op " + op)
+            return
         m = re.fullmatch(r"Atomic::<usize>::(\w+)", c)
         if m:
             op = m.group(1)
